@@ -133,12 +133,12 @@ def known_class(f):
     # elements, values, order, membership, index, local) — elements left behind or attributes changed are not in it
     if f["kind"] == "c11-load" and " R ERR InvalidFileMerge " in f["line"] and " changed=local " in f["line"]:
         return "C11-load-merge-rollback"
-    if f["kind"] in ("missing", "extra", "duplicate", "membership", "values", "file-content", "order-dependent") \
+    if f["kind"] in ("missing", "extra", "duplicate", "membership", "values", "file-content", "file-dfs", "order-dependent") \
             and CONTENT_KEYED.search(f["line"]):
         return "C09-unnamed-below-splittable"
     # multi-valued BSW parameters (several siblings with one DEFINITION-REF) whose sibling lists are not aligned in the
     # two files (the oracle computes the tag from the files alone): later values pair with the FIRST value again
-    if f["kind"] in ("missing", "extra", "duplicate", "membership", "values", "file-content", "order-dependent", "merge-rejected") \
+    if f["kind"] in ("missing", "extra", "duplicate", "membership", "values", "file-content", "file-dfs", "order-dependent", "merge-rejected") \
             and f["line"].endswith(" tag=multikey-misaligned"):
         return "C09-multivalued-defref-misaligned"
     # two files give one (non-splittable) parameter value different character data: the second file is accepted
